@@ -135,11 +135,15 @@ func (m *machine) scanCalls() {
 		abs := filepath.Join(m.c.Dir, fc.Path)
 		isCount := strings.HasSuffix(fc.Path, ".v1.count")
 		week, kind := weekOfReportPath(fc.Path)
+		if fc.Op == "rename" && fc.Err == nil && fc.Path2 != "" {
+			// a rename makes (or replaces) the destination
+			week, kind = weekOfReportPath(fc.Path2)
+		}
 		if m.roundMode == "off" && fc.Mutating && fc.Err == nil && (isCount || kind != "") {
 			m.fail("off-mode-write", "mode is off but the uploader performed %s on %s", fc.Op, fc.Path)
 			return
 		}
-		creates := fc.Err == nil && (fc.Op == "create-excl" || fc.Op == "link" || fc.Op == "open-create" || fc.Op == "writefile-open")
+		creates := fc.Err == nil && (fc.Op == "create-excl" || fc.Op == "link" || fc.Op == "open-create" || fc.Op == "writefile-open" || fc.Op == "rename")
 		if creates && kind == "ready" {
 			// A successful exclusive creation means the name did not exist: the
 			// latest creator is the run that built the report now in place.
